@@ -28,10 +28,16 @@ type vConn struct {
 	bigWrites   []int
 	failWriteAt int // fail the n-th Write (1-based); 0 = never
 	nWrite   int
+	// blockWrites: like a TCP connection whose peer does not read and whose send
+	// buffer is full, Write blocks until the connection is closed or a write
+	// deadline in the past is set
+	blockWrites  bool
+	writeExpired chan struct{}
+	inWrite      bool
 }
 
 func vNewConn(in []byte, hold bool) *vConn {
-	return &vConn{in: in, hold: hold, closedCh: make(chan struct{})}
+	return &vConn{in: in, hold: hold, closedCh: make(chan struct{}), writeExpired: make(chan struct{})}
 }
 
 func (c *vConn) Read(p []byte) (int, error) {
@@ -53,6 +59,15 @@ func (c *vConn) Read(p []byte) (int, error) {
 func (c *vConn) Write(p []byte) (int, error) {
 	if c.closed {
 		return 0, errors.New("use of closed connection")
+	}
+	if c.blockWrites {
+		c.inWrite = true
+		select {
+		case <-c.closedCh:
+			return 0, errors.New("use of closed connection")
+		case <-c.writeExpired:
+			return 0, errors.New("i/o timeout")
+		}
 	}
 	c.nWrite++
 	if c.failWriteAt != 0 && c.nWrite == c.failWriteAt {
@@ -79,7 +94,25 @@ func (c *vConn) LocalAddr() net.Addr                { return nil }
 func (c *vConn) RemoteAddr() net.Addr               { return nil }
 func (c *vConn) SetDeadline(t time.Time) error      { return nil }
 func (c *vConn) SetReadDeadline(t time.Time) error  { return nil }
-func (c *vConn) SetWriteDeadline(t time.Time) error { return nil }
+func (c *vConn) SetWriteDeadline(t time.Time) error {
+	// pending and future writes fail once the deadline has passed
+	if c.writeExpired == nil || t.IsZero() {
+		return nil
+	}
+	expire := func() {
+		select {
+		case <-c.writeExpired:
+		default:
+			close(c.writeExpired)
+		}
+	}
+	if d := time.Until(t); d <= 0 {
+		expire()
+	} else {
+		time.AfterFunc(d, expire)
+	}
+	return nil
+}
 
 // vSer is a stub serializer: Deserialize records the payload it was given and
 // returns a message (or an error); Serialize returns a body of scripted length.
